@@ -4,6 +4,7 @@ import (
 	"container/heap"
 	"lunar/toolkit-core/clock"
 	"lunar/toolkit-core/logging"
+	"lunar/toolkit-core/verifhook"
 	"sync"
 	"time"
 )
@@ -79,6 +80,9 @@ func (dpq *DelayedPriorityQueue) Enqueue(
 	dpq.requestCounts[req.priority]++
 
 	dpq.mutex.Unlock()
+	if verifhook.Enabled {
+		verifhook.Yield("dpq.before-park", req.ID)
+	}
 
 	// Wait until request is processed or TTL expires
 	select {
@@ -151,6 +155,9 @@ func (dpq *DelayedPriorityQueue) process() {
 		dpq.ensureWindowIsUpdated()
 		dpq.processQueueItems()
 		dpq.mutex.Unlock()
+		if verifhook.Enabled {
+			verifhook.Emit("dpq.processed")
+		}
 	}
 }
 
